@@ -239,8 +239,28 @@ def explore_queries(res, spec, filters, mode, triples):
                     df = _diff(got0, want0)
                     if df:
                         report("stale-after-reset", hist, [q[0] for q in qs] + ["reset"], df)
+        # sparse queries across episodes: everything asked once in ANOTHER
+        # state with the same number of dispatches, reset, this history
+        # replayed without any query, then everything asked
+        if hist and mode != "basic":
+            for other_hist in {alt_left[: len(hist)], alt_right[: len(hist)]}:
+                if other_hist == hist:
+                    continue
+                inst2, d2 = rebuild(other_hist)
+                ask_all(d2, inst2)
+                d2.reset()
+                impl.replay(d2, hist)
+                got3 = ask_all(d2, inst2)
+                res.add("evaluations")
+                res.add("nontrivial")
+                res.add("transitions", 2 * len(hist) + 1 + 2 * len(QUERIES))
+                df = _diff(got3, want)
+                if df:
+                    report("stale-after-reset-and-replay", hist, ["<all in state %r>" % (other_hist,), "reset", "replay"], df)
         if len(hist) == 2 and not filters and _disp.interleaves(hist):
             res.sample({"spec": spec, "state_history": hist, "queries": dict(want)})
         return None
 
+    _all = list(Ref(spec).all_histories())
+    alt_left, alt_right = _all[0], _all[-1]
     _disp.explore(res, spec, filters, visit, check, make_extra=make_extra, sig=sig)
